@@ -345,7 +345,7 @@ def rule_G(ctx):
                                                         dict(case, first=got, second=again)))
             except orders.Unsupported as ex:
                 raise shape_error('%s not interpretable: %s' % (call, ex), f.loc())
-            except (ZeroDivisionError, IndexError, KeyError, TypeError, AttributeError, ValueError, orders.Raised, RecursionError) as ex:
+            except orders.PROGRAM_ERRORS as ex:
                 found.setdefault((what, 'fails'), (f, '%s does not fail' % call, dict(case, exception='%s: %s' % (type(ex).__name__, str(ex)[:160]))))
                 continue
             if state_of(t) != snapshot:
@@ -382,7 +382,7 @@ def rule_G(ctx):
                     names_fresh = sorted(fresh3.call('getListAnalyticalFeatures'))
                 except orders.Unsupported as ex:
                     raise shape_error('%s after deleting the feature not interpretable: %s' % (call, ex), f.loc())
-                except (ZeroDivisionError, IndexError, KeyError, TypeError, AttributeError, ValueError, orders.Raised, RecursionError) as ex:
+                except orders.PROGRAM_ERRORS as ex:
                     found.setdefault((what, 'fails'), (f, '%s does not fail' % call, dict(case, history='computed, feature deleted, last fix moved, computed again', exception='%s: %s' % (type(ex).__name__, str(ex)[:160]))))
                     continue
                 if not (isinstance(got3, list) and isinstance(want3, list) and len(got3) == len(want3) and all(close(a_, b_) for a_, b_ in zip(got3, want3))) or names3 != names_fresh:
@@ -406,7 +406,7 @@ def rule_G(ctx):
                     after = t2.call('getAnalyticalFeature', feat)
                 except orders.Unsupported as ex:
                     raise shape_error('%s on an extracted piece not interpretable: %s' % (call, ex), f.loc())
-                except (ZeroDivisionError, IndexError, KeyError, TypeError, AttributeError, ValueError, orders.Raised, RecursionError) as ex:
+                except orders.PROGRAM_ERRORS as ex:
                     found.setdefault((what, 'fails'), (f, '%s does not fail' % call, dict(case, history='a piece is cut out with extractSpanTime; computed on the piece, then on the track', exception='%s: %s' % (type(ex).__name__, str(ex)[:160]))))
                     continue
                 same_piece = isinstance(got_piece, list) and isinstance(want_piece, list) and len(got_piece) == len(want_piece) and all(close(a_, b_) for a_, b_ in zip(got_piece, want_piece))
@@ -427,7 +427,7 @@ def rule_G(ctx):
             src = t.call('getAnalyticalFeature', 'a')
         except orders.Unsupported as ex:
             raise shape_error('Integrator not interpretable: %s' % ex, fi_.loc())
-        except (ZeroDivisionError, IndexError, KeyError, TypeError, AttributeError, ValueError, orders.Raised) as ex:
+        except orders.PROGRAM_ERRORS as ex:
             found.setdefault(('integrator', 'fails'), (fi_, 'the running-sum operator does not fail', {'input': xs, 'exception': '%s: %s' % (type(ex).__name__, str(ex)[:160])}))
             continue
         want = [0.0]
